@@ -60,6 +60,15 @@ static bool bit_identical(const Res& x, const Res& y) {
    return true;
 }
 
+// the same model entered through the other constructor: gauge basis with the lambda_1..7 the mass-basis model reports and the same Yukawa-sector input
+static thdm::Gauge_basis to_gauge(const THDM& m, const thdm::Mass_basis& b) {
+   thdm::Gauge_basis g; g.yukawa_type = b.yukawa_type;
+   g.lambda << m.get_lambda1(), m.get_lambda2(), m.get_lambda3(), m.get_lambda4(), m.get_lambda5(), m.get_lambda6(), m.get_lambda7();
+   g.tan_beta = b.tan_beta; g.m122 = b.m122; g.zeta_u = b.zeta_u; g.zeta_d = b.zeta_d; g.zeta_l = b.zeta_l;
+   g.Delta_u = b.Delta_u; g.Delta_d = b.Delta_d; g.Delta_l = b.Delta_l; g.Pi_u = b.Pi_u; g.Pi_d = b.Pi_d; g.Pi_l = b.Pi_l;
+   return g;
+}
+
 int main(int argc, char** argv) {
    vh::Args a(argc, argv);
    vh::Out o(a); out = &o;
@@ -96,6 +105,11 @@ int main(int argc, char** argv) {
             THDM A(b, sm, cfg), B(al, sm, cfg);
             ++o.conclusive;
             cmp_all("type-vs-aligned", "type" + std::to_string(ty) + "|" + runs + (withDelta ? "|Delta_f!=0" : "|Delta_f=0"), observe(A), observe(B), TOL_A, TOL_F, true, true, c);
+            // the same relation with both models entered through the gauge-basis constructor, and the aligned model in both bases
+            // (the gauge-basis model recomputes the heavy masses from lambda_i: agreement to their conditioning, 1e-7 on the term sums)
+            if (i % 2 == 0) { try { THDM GA(to_gauge(A, b), sm, cfg), GB(to_gauge(B, al), sm, cfg);
+               cmp_all("type-vs-aligned(gauge basis)", "type" + std::to_string(ty) + "|" + runs + (withDelta ? "|Delta_f!=0" : "|Delta_f=0"), observe(GA), observe(GB), 1e-7, TOL_F, true, true, c);
+               cmp_all("mass-basis-vs-gauge-basis", std::string("aligned|") + runs, observe(B), observe(GB), 1e-7, TOL_F, true, true, c); } catch (const Error&) { o.count("gauge-basis rebuild rejected"); } }
             o.sample(c, 1);
          } else if (rel == 1) {
             // (b) running off: aligned(zeta_f, Delta_f)  ==  general with Pi_f = cos(beta) (sqrt2 M_f (zeta_f + tan beta)/v + Delta_f)
@@ -111,6 +125,9 @@ int main(int argc, char** argv) {
             THDM A(al, sm, cfg), G(ge, sm, cfg);
             ++o.conclusive;
             cmp_all("aligned-vs-general", "norun", observe(A), observe(G), TOL_B, TOL_F, false, false, c);
+            if (i % 2 == 0) { try { THDM GA(to_gauge(A, al), sm, cfg), GG(to_gauge(G, ge), sm, cfg);
+               cmp_all("aligned-vs-general(gauge basis)", "norun", observe(GA), observe(GG), 1e-7, TOL_F, false, false, c);
+               cmp_all("mass-basis-vs-gauge-basis", "general|norun", observe(G), observe(GG), 1e-7, TOL_F, true, true, c); } catch (const Error&) { o.count("gauge-basis rebuild rejected"); } }
             o.sample(c, 1);
          } else {
             // (c) parameters documented as ignored do not influence any result (bit-identical)
